@@ -128,6 +128,9 @@ def run(model: RepoModel, rep, tier: str):
                                 + ["basics/type_hierarchy.py", "common_structs.py"])
     _r6b_memo_key_is_bounded(model, rep)
     _r7_bounded_evaluation(model, rep)
+    from .. import generic6
+    rep.rule("C13.R8", "the size check of constant folding bounds sequence repetition whichever side the sequence is on", 1)
+    generic6.check_repetition_bound_both_orders(model, rep, "C13.R8")
 
     # functions something in the pipeline can reach (by-name over-approximation: a function is reachable when a reachable
     # function mentions its name; roots: main.py, event registration, handler tables)
